@@ -8,7 +8,7 @@ import pC12
 from par import pmap
 
 PROP = "C13"
-PROPERTY_FILES = ["Properties/C13.v"]
+PROPERTY_FILES = ["Properties/C13.v", "Properties/C13finish.v"]
 META = dict(
     level_text="Theorems (Coq): for every configuration with unique names, after every history of local events and "
                "ARBITRARY remote messages (any records, ids, duplicates, orders) a singleton pattern has at most one "
